@@ -159,7 +159,8 @@ def rule_finally(rep: Report, repo: Repo, cu: CUnit) -> None:
                           expected='last_run_op_count, last_run_paused_seconds and *ops_out assigned after the last change')
 
 
-def rule_cfail(rep: Report, cu: CUnit) -> None:
+def rule_cfail(rep: Report, cu: CUnit, repo: Optional[Repo] = None) -> None:
+    repo = repo or Repo()
     rep.rule('C18.CFAIL', 'a failed device callback (NULL result, IsTrue < 0) leaves the loop without executing any later '
              'event of that op; only the EOF type is cleared and turned into a cause; Memory_run returns NULL on the '
              'python-error marker (ring freed)', 14)
@@ -206,6 +207,45 @@ def rule_cfail(rep: Report, cu: CUnit) -> None:
                           f'cleared under {sorted(conds)}', cu.site(node.ast, fname), expected='only when the EOF type matches')
         if clears != 1:
             raise AnalysisError(f'{fname}: expected one PyErr_Clear, found {clears}')
+    # end-of-input is a property of READING: only a failed read_bit may be turned into the EOF cause
+    for fname in M.ROLES_C:
+        for consts in ([{'with_ring': 0}, {'with_ring': 1}] if fname == 'run_paged_loop_impl' else [{}]):
+            L = CLoop(cu, fname, M.ROLES_C[fname], consts)
+            g = L.g
+            for node in g.nodes:
+                if 'OUTPUT' not in L.events(node):
+                    continue
+                # the failure test that follows the write_bit call
+                nxt = [m for m, _ in g.succ[node.id]]
+                if not nxt or g.nodes[nxt[0]].kind != 'cond' or cu.src_of(g.nodes[nxt[0]].ast) != '!result':
+                    raise AnalysisError(f'{fname}: the write_bit call is not followed by a `!result` test')
+                start = [m for m, lab in g.succ[nxt[0]] if lab == 'T'][0]
+                seen = {start}
+                work = [start]
+                hit = None
+                while work:
+                    n = work.pop()
+                    a = g.nodes[n].ast
+                    if isinstance(a, dict) and g.nodes[n].kind in ('stmt', 'cond'):
+                        t = cu.src_of(a)
+                        if 'PyErr_Clear' in t or 'TERM_EOF' in t:
+                            hit = f'{cu.site(a)}: {t[:50]}'
+                    for m2, _ in g.succ[n]:
+                        if m2 not in seen:
+                            seen.add(m2)
+                            work.append(m2)
+                rep.check(hit is None, 'C18.CFAIL', f'{L.clone_name()}:write_bit-failure-is-never-EOF',
+                          'a failed write_bit leaves with the exception still set' if hit is None else
+                          f'a failed write_bit can reach {hit}: an IOReadOnEOF raised by write_bit would be swallowed as an EOF termination',
+                          cu.site(node.ast, fname), expected='only a failed read_bit is matched against the EOF type')
+    for fname in ('_run_fast', '_run_featured'):
+        f = repo.func(RUN_REL, fname)
+        for n in walk_no_nested(f):
+            if isinstance(n, ast.Try) and any('IOReadOnEOF' in handler_types(h) for h in n.handlers):
+                inside = {dotted(c.func) for s2 in n.body for c in ast.walk(s2) if isinstance(c, ast.Call)}
+                ok = not ({'io_write_bit', '_handle_output', 'io_device.write_bit'} & inside) and ({'io_read_bit', '_handle_input'} & inside)
+                rep.check(bool(ok), 'C18.CFAIL', f'{fname}:EOF-handler-scope', f'the IOReadOnEOF handler encloses {sorted(inside)}',
+                          f'{RUN_REL}:{n.lineno} {fname}', expected='only the input read')
     # Memory_run: python error -> NULL, ring freed
     g = build_c_cfg(cu, 'Memory_run')
     n_checks = 0
@@ -318,7 +358,7 @@ def check(rep: Report, repo: Optional[Repo] = None) -> None:
                      c_loops=list(M.ROLES_C))
     rule_classify(rep, repo)
     rule_finally(rep, repo, cu)
-    rule_cfail(rep, cu)
+    rule_cfail(rep, cu, repo)
     rule_signal(rep, cu)
     rule_stats_on_raise(rep, repo)
     rep.not_decided.append('equality of the memory snapshot at every fault point across engines (value-level)')
